@@ -18,9 +18,21 @@ VERIF = os.path.dirname(os.path.dirname(os.path.abspath(__file__)))
 BUILD = os.path.join(VERIF, ".build")
 
 # ---- the renaming rules, from the statement of C07 ---------------------------------------------------------------
+def words_of(ident):
+    """words of an identifier: split at underscores and at lower->Upper / digit boundaries (snake_case, camelCase, PascalCase)"""
+    words, cur = [], ""
+    for ch in ident:
+        if ch == "_":
+            if cur: words.append(cur); cur = ""
+        elif cur and ch.isupper() and (cur[-1].islower() or cur[-1].isdigit()):
+            words.append(cur); cur = ch
+        else:
+            cur += ch
+    if cur: words.append(cur)
+    return words
 def camel_case(ident):
-    parts = [p for p in ident.split("_") if p]
-    return parts[0].lower() + "".join(p[:1].upper() + p[1:].lower() for p in parts[1:]) if parts else ident
+    w = words_of(ident)
+    return (w[0].lower() + "".join(x[:1].upper() + x[1:].lower() for x in w[1:])) if w else ident
 def effective_key(ident, rename, rename_all):
     if rename is not None: return rename
     if rename_all == "camelCase": return camel_case(ident)
@@ -55,7 +67,7 @@ def expand(repo, cat):
     open(os.path.join(d, "crate", "Cargo.toml"), "w").write(f'[package]\nname = "deserr-verif-expand"\nversion = "0.1.0"\nedition = "2021"\n[dependencies]\ndeserr = {{ path = "{repo}" }}\n[workspace]\n')
     lock = os.path.join(repo, "Cargo.lock")
     if os.path.exists(lock): shutil.copy(lock, os.path.join(d, "crate", "Cargo.lock"))
-    src = "#![allow(dead_code)]\nuse deserr::Deserr;\n" + "\n".join(rust_item(s)[0] for s in cat["structs"])
+    src = "#![allow(dead_code)]\nuse deserr::Deserr;\n" + "\n".join(rust_item(s)[0] for s in cat["structs"]) + "\n" + "\n".join(variant_item(e) for e in cat.get("unit_enums", []))
     open(os.path.join(d, "crate", "src", "lib.rs"), "w").write(src)
     e = dict(os.environ); e["CARGO_NET_OFFLINE"] = "true"; e["CARGO_TARGET_DIR"] = os.path.join(BUILD, f"derive-target-{h}")
     e.pop("RUSTUP_TOOLCHAIN", None)
@@ -256,6 +268,42 @@ def gen_struct(s, expanded_path):
     take = f"@@take {expanded_path} :: Deserr<__Deserr_E> for {name}<\n@@subst \"::deserr::\" -> \"\"\n@@members\n{members}@@fn deserialize_from_value\n" + "".join(dirs)
     return "".join(raw), take
 
+def variant_item(e):
+    cattrs = []
+    if e.get("rename_all"): cattrs.append(f"rename_all = {e['rename_all']}")
+    lines = []
+    for v in e["variants"]:
+        lines.append((f'    #[deserr(rename = "{v["rename"]}")]\n' if v.get("rename") is not None else "") + f"    {v['ident']},")
+    return "#[derive(Deserr)]\n" + (f"#[deserr({', '.join(cattrs)})]\n" if cattrs else "") + f"pub enum {e['name']} {{\n" + "\n".join(lines) + "\n}\n"
+
+def gen_unit_enum(e, expanded_path):
+    """unit-only enum read from a string (C10)"""
+    name = e["name"]; P = name.lower()
+    names = [effective_key(v["ident"], v.get("rename"), e.get("rename_all")) for v in e["variants"]]
+    def lit(k): return '"' + k + '"@'
+    raw = []
+    raw.append(f"// ==== unit enum {name}: effective variant names {names} (computed from the description by tools/derive_unit.py)\n")
+    raw.append(f"pub enum {name} {{ " + " ".join(v["ident"] + "," for v in e["variants"]) + " }\n")
+    raw.append(f"/// which variant (declaration order) a string selects: exact, case-sensitive match on the effective name\npub open spec fn {P}_variant_of(k: Seq<char>) -> int {{ " +
+               " else ".join(f"if k == {lit(k)} {{ {i} }}" for i, k in enumerate(names)) + " else { -1 } }\n")
+    raw.append(f"pub open spec fn {P}_names() -> Seq<Seq<char>> {{ seq![{', '.join(lit(k) for k in names)}] }}\n")
+    repr_clauses = " && ".join(f"((self is {v['ident']}) == ({P}_variant_of(value->String_0@) == {i}))" for i, v in enumerate(e["variants"]))
+    members = f'''    //@impl-labels [C04,C10:{P}_string_selects_exactly_the_named_variant_or_is_reported_with_all_names]
+    open spec fn accepts<V: IntoValue>(value: Value<V>) -> bool {{ value is String && {P}_variant_of(value->String_0@) >= 0 }}
+    /// a string naming no variant is reported with the full list of effective names in declaration order, at the enum's location
+    open spec fn spec_trace<V: IntoValue>(value: Value<V>, p: Seq<Step>) -> Seq<Ev> {{
+        if value is String {{
+            if {P}_variant_of(value->String_0@) >= 0 {{ seq![] }}
+            else {{ seq![Ev::Report {{ path: p, kind: RKind::UnknownValue {{ value: value->String_0@, accepted: {P}_names() }} }}] }}
+        }} else {{ seq![kind_report(value, p, seq![ValueKind::String])] }}
+    }}
+    /// the variant chosen is the one whose effective name equals the string exactly
+    open spec fn represents<V: IntoValue>(self, value: Value<V>) -> bool {{ value is String && {repr_clauses} }}
+'''
+    take = (f"@@take {expanded_path} :: Deserr<__Deserr_E> for {name} where\n@@subst \"::deserr::\" -> \"\"\n@@members\n{members}@@fn deserialize_from_value\n@@rewrite strmatch\n"
+            f"@@body-start\n        broadcast use group_derive;\n")
+    return "".join(raw), take
+
 HEADER_SPEC = os.path.join(VERIF, "contracts", "derive_header.vspec.in")
 
 def prepare(repo):
@@ -265,6 +313,9 @@ def prepare(repo):
     raws, takes = [], []
     for s in cat["structs"]:
         r, t = gen_struct(s, expanded)
+        raws.append(r); takes.append(t)
+    for e in cat.get("unit_enums", []):
+        r, t = gen_unit_enum(e, expanded)
         raws.append(r); takes.append(t)
     spec = header.replace("@@STRUCT-PRELUDES@@", "@@raw\n" + "\n".join(raws)).replace("@@STRUCT-TAKES@@", "\n".join(takes))
     out = os.path.join(d, "derive.vspec")
